@@ -45,6 +45,8 @@ def check(run):
         run.rule("C01-slots", "a v-table cell belongs to one method parameter: a slot taken in a class is reserved in all its transitive bases and marked used in all covariant classes", floor=4)
         crules.reserve_rules(run, "C01-slots", ast)
         crules.alloc_rules(run, "C01-slots", ast)
+        run.rule("C01-model", "augment_methods: run-time methods/definitions mirror the registrations one to one (function pointers, parameter classes from the own id lists in order, error cells, (method, parameter) pairs)", floor=8)
+        crules.model_rules(run, "C01-model", ast)
     run.assumptions += ["v-table pointer acquisition (Policy::dynamic_vptr, virtual_ptr::_vptr) is an opaque leaf here; its content is decided by C09 / C15",
                         "the tables themselves (which definition sits in which cell) are values computed by update: not decided"]
     return run.finish(level="other", explanation="Symbolic summary (LLVM IR after mem2reg, library calls substituted) of the function pointer that "
